@@ -216,6 +216,14 @@ class McmcSim:
         t = self.cur.t if self.cur is not None else -1
         self.violations.append({"signature": sig, "message": "transition %d: %s" % (t + 1, msg), "t": t})
 
+    def operators_once(self):
+        seen, out = set(), []
+        for o in self.mcmc._operators:
+            if id(o) not in seen:
+                seen.add(id(o))
+                out.append(o)
+        return out
+
     def probe(self, name):
         self.probes[name] = self.probes.get(name, 0) + 1
 
@@ -293,6 +301,7 @@ class McmcSim:
         rec.s = self.snapshot()
         rec.lp_s = self.lp_cur
         self.cur_p0 = self.cur_p1 = None
+        self._tuning_all = [(o, tuning_value(o)) for o in self.operators_once()]
         self.log.add("choose", t, idx, seed)
         return torch.tensor(idx)
 
@@ -304,6 +313,7 @@ class McmcSim:
             rec.tuning_before = tuning_value(op)
             if op_kind(op) == "HMCOperator":
                 rec.mass = op.mass_matrix.detach().clone()
+                rec.notes["leap_steps"] = int(op._integrator.steps)
             hr = orig(*a, **k)
             rec.hr = float(hr)
             rec.s2 = self.snapshot()
@@ -340,6 +350,7 @@ class McmcSim:
             if k == "HMCOperator":
                 if rec.p0 is None or rec.p1 is None:
                     return None, {"no_momentum": True}
+                self._leapfrog_reference(rec, op)
                 return refprop.hmc(rec.p0.numpy(), rec.p1.numpy(), rec.mass.numpy())
             if k == "GMRFPiecewiseCoalescentBlockUpdatingOperator":
                 return self._gmrf_reference(rec, op)
@@ -347,6 +358,63 @@ class McmcSim:
             rec.hr_error = str(e)
             return None, {"proposal_error": str(e)}
         return None, {"unknown_operator": k}
+
+    def _leapfrog_reference(self, rec, op):
+        """K(r) - K(r') is the log ratio of reverse to forward proposal densities only if (x', -r')
+        is the image of (x, r) under a reversible volume-preserving map: the leapfrog map of the
+        target *at the current state*.  Recompute that map here, on a freshly built model holding
+        the state before the proposal (own loop, gradients by autograd), and compare."""
+        import torch
+
+        d, _, err = self.fresh_at(rec.s)
+        if d is None or err:
+            return
+        try:
+            joint = d[op._hamiltonian.joint.id]
+            params = [d[p.id] for p in op.parameters]
+        except (KeyError, AttributeError):
+            return
+        eps, L = rec.tuning_before, rec.notes.get("leap_steps")
+        mass = rec.mass.to(torch.float64)
+        minv = 1.0 / mass if mass.dim() == 1 else torch.inverse(mass)
+        x = torch.cat([p.tensor.detach().clone().reshape(-1) for p in params]).to(torch.float64)
+        r = rec.p0.clone().to(torch.float64)
+        dt = params[0].tensor.dtype
+
+        def grad(xx):
+            start = 0
+            for p in params:
+                n = p.tensor.numel()
+                p.tensor = xx[start : start + n].to(dt).clone().requires_grad_(True)
+                start += n
+            lp = joint()
+            lp.backward()
+            return torch.cat([p.grad.reshape(-1) for p in params]).to(torch.float64)
+
+        try:
+            g = grad(x)
+            r = r + 0.5 * eps * g
+            for _ in range(L):
+                x = x + eps * (minv * r if minv.dim() == 1 else minv @ r)
+                g = grad(x)
+                r = r + eps * g
+            r = r - 0.5 * eps * g
+        except Exception:  # noqa: BLE001 - the reference cannot follow (non-finite energy ...): no comparison
+            return
+        if not (bool(torch.isfinite(x).all()) and bool(torch.isfinite(r).all())):
+            return
+        from checks.c11 import base_ids_of
+
+        got = torch.cat([rec.s2[i].detach().reshape(-1) for par in op.parameters for i in base_ids_of(par)]).to(torch.float64)
+        self.probe("hmc_leapfrog_compared")
+        tol = 1e-8 if dt == torch.float64 else 1e-3
+        if got.shape != x.shape:
+            return
+        ex = float(((got - x).abs() / (1.0 + x.abs())).max())
+        er = float(((rec.p1.to(torch.float64) - r).abs() / (1.0 + r.abs())).max())
+        if ex > tol or er > tol:
+            raise refprop.ProposalError("the HMC proposal is not the leapfrog map of the target at the current state: position off by %.3g, momentum off by %.3g "
+                                        "(relative; step size %r, %d steps) - K(r) - K(r') is then not the log ratio of reverse to forward proposal densities" % (ex, er, eps, L))
 
     def _scaler_derived(self, rec, op):
         """Scaler attached to a derived (transformed) parameter y = T(x): the
@@ -478,6 +546,8 @@ class McmcSim:
     def wrap_tune(self, op, orig):
         def tune(acceptance_prob, *a, **k):
             rec = self.cur
+            if rec.op is not None and rec.op is not op:
+                self.violate("tuning_foreign", op, "tune() was called on %s with the acceptance of a transition proposed by %s" % (op.id, rec.op.id))
             before = boldness(op)
             tv_before = tuning_value(op)
             try:
@@ -628,6 +698,12 @@ class McmcSim:
                 except Exception as e:  # noqa: BLE001
                     self.violate("stale_joint", op, "joint() raised %s after %s" % (type(e).__name__, rec.decision))
         # ---- 6 / 8. tuning
+        # an operator's proposal scale answers to its own acceptance: a transition proposed by one
+        # operator leaves the tuning value of every other operator alone
+        for o, tv in getattr(self, "_tuning_all", []):
+            if o is not op and o is not rec.op and tuning_value(o) != tv:
+                self.violate("tuning_foreign", o, "the transition was proposed by %s but the tuning value of %s changed %r -> %r" % (op.id, o.id, tv, tuning_value(o)))
+                break
         target = getattr(op, "target_acceptance_probability", None)
         adaptors = list(getattr(op, "_adaptors", [])) if kind == "HMCOperator" else []
         self.stats["tune_checked"] += 1
@@ -728,7 +804,7 @@ def prepare_spec(scenario):
     spec, meta = build_spec(recipe)
     m = scenes.find(spec, meta["algo_id"])
     m["checkpoint"] = False
-    m["every"] = 0
+    m["every"] = int(recipe.get("every") or 0)  # screen report frequency (stdout is dropped by the worker)
     # knobs applied to configurations the CLI emitted (operator options only, the model is untouched)
     ko = recipe.get("op_knobs") or {}
     for op in m.get("operators", []):
@@ -926,6 +1002,17 @@ def generate(seed, index, tier):
         if k.bernoulli(0.25):
             recipe["faulty"] = {"watch": k.choice(["x", "z"]), "index": 0, "lo": k.uniform(-2.0, -0.2), "hi": k.uniform(0.8, 3.0), "value": k.choice(["-inf", "-inf", "nan", "+inf"])}
         transitions = k.randint(20, 120)
+        k2 = st["knobs2"]
+        # the screen report of MCMC.run (every > 0) runs inside the loop, between the decision and the tuning
+        recipe["every"] = k2.choice([0, 0, 1, 3, 4, 7])
+        if k2.bernoulli(0.3):
+            # blocks coupled through z | x; HMC may then own one block only while another operator moves the other
+            recipe["coupled"] = True
+            if any(o.startswith("hmc") for o in ops) and k2.bernoulli(0.7):
+                recipe["hmc_params"] = k2.choice([["x"], ["z"], ["x", "z"]])
+                other = "slidingz" if recipe["hmc_params"] == ["x"] else "sliding"
+                if other not in ops:
+                    recipe["operators"] = ops + [other]
     else:
         if k.bernoulli(0.35):
             # any model the CLI can emit, under the sliding-window / block-update mixture or HMC
@@ -936,7 +1023,7 @@ def generate(seed, index, tier):
         else:
             sub, args = k.choice(CLI_SCENES)
         recipe = {"kind": "cli", "sub": sub, "args": args, "iterations": 1, "freq": 1000, "log_every": k.choice([1, 2, 5]), "logger": k.bernoulli(0.7),
-                  "op_knobs": {"disable_adaptation": k.bernoulli(0.2), "target_acc": k.choice([None, None, 0.1, 0.6]),
+                  "every": k.choice([0, 0, 1, 5]), "op_knobs": {"disable_adaptation": k.bernoulli(0.2), "target_acc": k.choice([None, None, 0.1, 0.6]),
                                "gmrf_scaler": k.choice([None, None, 1.0, 1.0, 1.3, 5.0]), "width_scale": k.choice([None, None, 0.1, 4.0])}}
         transitions = k.randint(15, 80) if sub == "mcmc" else k.randint(8, 25)
     pol = k.weighted(["weights", "weights", "single", "roundrobin", "bursts"], [4, 0, 2, 2, 1])
